@@ -44,6 +44,17 @@ CHECKS = {
              "$UPDATE_OS_ENVIRON mirroring and real preemption inside a call are outside. Two defects found here were repaired (fix: commits).",
         ref="DESIGN.md 4 C11",
     ),
+    "C20": dict(
+        text="One inductive step of every job-table operation (add_job, fg, bg, disown, jobs, get_next_task, pipeline registration) "
+             "from an arbitrary consistent table, executed symbolically on the real jobs.py code: job-number sets, every MRU "
+             "permutation, per-job alive/bg/stopped flags, every argument form, main thread and a worker thread with its own tables. "
+             "After the step both structures must agree, dead jobs be purged, the documented job be selected, errors leave the table "
+             "untouched and the worker's tables be restored. Because the pre-state is arbitrary, histories of any length are covered "
+             "as long as the invariant (distinct numbers, MRU a permutation of them) holds - which each obligation re-establishes.",
+        note="Bounds: <=3 jobs over numbers 1..5 (quick), <=4 over 1..6 (thorough). Process objects, pipeline.resume, _continue and "
+             "print are stubs. Real concurrent access (alias threads, SIGHUP handler) is outside. One defect repaired (fix: commit).",
+        ref="DESIGN.md 4 C20",
+    ),
 }
 
 NA = {
